@@ -180,3 +180,24 @@ def textDocHtml(html: Str, pat: Str, ds: "DepList", lp: "OptStr", iv: Bool) -> S
 def textDocRaises(ds: "DepList", lp: "OptStr", iv: Bool) -> Bool:
     "dependency markup that still contains an un-expandable object cannot be rendered"
     return hasObL(tagifyL(headExtra(ds, lp, iv)))
+
+
+# ---- head_content naming (C18) ------------------------------------------------------------------------------
+@abstract(group="env")
+def sha1hex(s: Str) -> Str:
+    "hashlib.sha1(s.encode('utf-8')).hexdigest() (external; injectivity on the inputs met is an assumption)"
+    return BIND_S["sha1hex"](s)
+
+
+def _sha1(s):
+    import hashlib
+    return hashlib.sha1(s.encode("utf-8")).hexdigest()
+
+
+BIND_S["sha1hex"] = _sha1
+
+
+@spec
+def headName(l: "NodeList") -> Str:
+    "the name of head_content(*args): a function of the rendered content only"
+    return "headcontent_" + sha1hex(rlistTop(l, 0, "\n", True, True))
